@@ -35,8 +35,8 @@ def body(c, judge):
     sk2 = c.gen("TensorOps", cfg(c, "Gen2.cfg", 2, model_devs, ["Emit"], view=False), timeout=1200)
     rnd = random.Random(c.seed)
     n2 = len(sk2)
-    if c.quick:
-        sk2 = rnd.sample(sk2, min(len(sk2), 2500))
+    # thorough: all programs of length 2 in float32 would be several hundred thousand runs x 3 dtypes: a sample of 60 000 (seeded)
+    sk2 = rnd.sample(sk2, min(len(sk2), 2500 if c.quick else 60000))
     sim = c.gen("TensorOps", cfg(c, "GenSim.cfg", 7, model_devs, ["Emit"], view=False), simulate=400 if c.quick else 6000, depth=8, seed=c.seed + 1)
     nsim = len(sim)
     sim = rnd.sample(sim, min(len(sim), 500 if c.quick else 8000))
@@ -44,7 +44,7 @@ def body(c, judge):
         raise MachineryError(f"too few skeletons {len(sk1)} {len(sk2)} {len(sim)}")
     sks = sk1 + sk2 + sim
     dtypes = ["float32"] if c.quick else ["float32", "float16", "bfloat16"]
-    tr = c.harness("h_tops.py", {"skeletons": sks, "dtypes": dtypes}, timeout=3000)["traces"]
+    tr = c.harness("h_tops.py", {"skeletons": sks, "dtypes": dtypes}, timeout=3000 if c.quick else 9000)["traces"]
     consts = {"MaxDepth": 0, "Judge": '"%s"' % judge}
     consts.update({d: ("TRUE" if devs[d] else "FALSE") for d in TRACE_DEVS})
     res = c.validate("Trace_TensorOps", tr, chunk=250, constants=consts)
